@@ -38,6 +38,9 @@ def type_of(c):
         return {'k': 'prim', 'p': 'DateTime', 'facets': {c['facet']: {'dt': [b.year, b.month, b.day, 0, 0, 0, 0, 0]}}}
     if g == 'lex':
         return {'k': 'prim', 'p': c['ty'], 'facets': {}}
+    if g == 'objarr':
+        return {'k': 'arr', 'of': {'k': 'obj', 'name': 'El', 'fields': [['v', {'k': 'prim', 'p': 'Integer', 'min': 1}],
+                                                                      ['w', {'k': 'prim', 'p': 'Integer'}]]}}
     raise ValueError(c)
 
 
@@ -73,6 +76,18 @@ def value_of(c, fam):
         return inst.astimezone(FixedOffset(c['off']))
     if g == 'lex':
         return E.Raw(TEXTS.get(c['text'], c['text'])) if text else SKIP
+    if g == 'objarr':
+        if c['missing'] > c['n']:
+            return SKIP
+        n = c['n']
+        idx = list(range(n)) if c['idx'] == 'contig' else ([2, 10] if n == 2 else [0, 2, 10] if n == 3 else list(range(0, 2 * n, 2)))
+        items = []
+        for k, i in enumerate(idx):
+            o = {'v': 100 + k, 'w': k}
+            if c['missing'] == k + 1:
+                del o['v']
+            items.append((i, o))
+        return E.Sparse(items)
     raise ValueError(c)
 
 
@@ -81,6 +96,8 @@ SKIP = object()
 
 def positions_of(c, fam):
     g = c['group']
+    if g == 'objarr':
+        return ['arg']
     pos = ['arg', 'field']
     if g in ('num', 'big', 'str', 'enum', 'date', 'lex'):
         pos.append('array')
